@@ -64,13 +64,36 @@ def floors(ctx):
     q = ctx.tier == "quick"
     return {"evaluations": 2000 if q else 20000, "lines_checked": 10000 if q else 100000,
             "lines_without_neighbours": 500, "lines_with_selfloop": 100, "lines_with_repeated_neighbour": 100,
-            "lines_with_outside_neighbour": 100, "empty_universe": 5, "sort_ties": 100}
+            "lines_with_outside_neighbour": 100, "empty_universe": 5, "sort_ties": 100, "cases_with_caching_on": 100}
 
 
-def run_case(ctx, spec, rname, sname):
-    g = graphs.build(spec)
+def run_case(ctx, spec, rname, sname, cache=False):
+    from edgegraph.structure import Vertex
+
+    Vertex.NEIGHBOR_CACHING = bool(cache)
+    try:
+        if cache:
+            ctx.count("cases_with_caching_on")
+            # render twice: the second rendering is served from warm neighbor caches
+            _run_case(ctx, spec, rname, sname, cache, keep=None)
+        return _run_case(ctx, spec, rname, sname, cache)
+    finally:
+        Vertex.NEIGHBOR_CACHING = False
+
+
+_KEEP = {}
+
+
+def _run_case(ctx, spec, rname, sname, cache, keep=False):
+    if keep is None:
+        _KEEP["g"] = graphs.build(spec)
+        g = _KEEP["g"]
+    elif cache and "g" in _KEEP:
+        g = _KEEP.pop("g")
+    else:
+        g = graphs.build(spec)
     rf, sf = RFUNCS[rname], SORTS[sname]
-    case = {"spec": spec, "rfunc": rname, "sort": sname}
+    case = {"spec": spec, "rfunc": rname, "sort": sname, "cache": bool(cache)}
     res = oracles.outcome(plaintext.basic_render, g.uni, rf, sf)
     ctx.evaluated()
     tag = f"{'rfunc' if rf else 'repr'}:{'sort' if sf else 'nosort'}"
@@ -139,6 +162,11 @@ def run(ctx):
             spec["uni"] = list(range(len(spec["verts"])))
         specs.append(spec)
     specs.append({"verts": ["Vertex"], "edges": [], "uni": [0]})
+    brng = random.Random(1616)
+    nbig = 300
+    specs.append({"verts": ["Vertex"] * nbig, "uni": list(range(nbig)),
+                  "edges": [[brng.choice(graphs.ECLS_DU), brng.randrange(nbig), brng.randrange(nbig), k] for k in range(900)]
+                  + [["DirectedEdge", 0, c, 0] for c in range(1, 140)]})
     specs.append({"verts": ["Vertex", "Vertex"], "edges": [], "uni": []})
     specs.append({"verts": ["Vertex", "Vertex"], "edges": [["DirectedEdge", 0, 1, 0]], "uni": [1, 0]})
     n_random = 1200 if quick else 8000
@@ -156,7 +184,7 @@ def run(ctx):
                 rng.shuffle(spec["uni"])
         for rname in RFUNCS:
             for sname in SORTS:
-                run_case(ctx, spec, rname, sname)
+                run_case(ctx, spec, rname, sname, cache=(n + len(rname) + len(sname)) % 3 == 0)
         k += 1
         if k in (4, 200) and ctx.shard == 0:
             ctx.sample({"spec": spec, "rfunc": list(RFUNCS), "sort": list(SORTS)})
@@ -165,6 +193,6 @@ def run(ctx):
 
 
 def replay(ctx, case):
-    run_case(ctx, case["spec"], case["rfunc"], case["sort"])
+    run_case(ctx, case["spec"], case["rfunc"], case["sort"], case.get("cache", False))
     ctx.nontrivial("replay-a")
     ctx.nontrivial("replay-b")
